@@ -480,6 +480,55 @@ def hard_start_tying_bounded_instance():
                     mode='bounded', bounded_n=150, frame=False)
 
 
+def high_caps_bounded_instance():
+    """Concentration caps chosen by the caller far above the defaults (vMF: up to 1e4; Watson: up to 700), on tightly clustered data
+    that reaches them: the fitted model stays finite and inside [min, max], modes have unit norm, weights sum to one, and predict on
+    the training data returns finite posteriors."""
+    from pb_bss.distribution import VMFMMTrainer, VonMisesFisherTrainer, CWMMTrainer
+
+    def make(B):
+        return {'which': B.choose('which', ['vmfmm', 'vmfmm', 'vmf', 'cwmm']), 'cap': B.choose('cap', [600.0, 800.0, 2000.0, 1e4]), 'it': B.choose('it', [1, 2, 3, 5]),
+                'tight': B.choose('tight', [1e-2, 1e-3, 1e-5]), 'seed': B.choose('seed', list(range(3000))), 'd': B.given('d', np.zeros(1))}
+
+    def call(inp):
+        rng = np.random.RandomState(inp['seed'])
+        K, N, D = 2, 30, int(rng.randint(3, 7))
+        lab = np.arange(N) % K
+        cplx = inp['which'] == 'cwmm'
+        cent = rng.normal(size=(K, D)) + (1j * rng.normal(size=(K, D)) if cplx else 0)
+        y = cent[lab] + inp['tight'] * (rng.normal(size=(N, D)) + (1j * rng.normal(size=(N, D)) if cplx else 0))
+        init = 0.9 * (lab[None, :] == np.arange(K)[:, None]) + 0.05
+        res = {'which': inp['which'], 'K': K}
+        if inp['which'] == 'vmfmm':
+            m = VMFMMTrainer().fit(y, initialization=init, iterations=inp['it'], max_concentration=inp['cap'])
+            res.update(weight=np.asarray(m.weight), mean=np.asarray(m.vmf.mean), kappa=np.asarray(m.vmf.concentration), post=np.asarray(m.predict(y)), cap=inp['cap'])
+        elif inp['which'] == 'vmf':
+            m = VonMisesFisherTrainer().fit(y[lab == 0], max_concentration=inp['cap'])
+            res.update(mean=np.asarray(m.mean), kappa=np.asarray(m.concentration), post=np.asarray(m.log_pdf(y[lab == 0] / np.linalg.norm(y[lab == 0], axis=-1, keepdims=True))), cap=inp['cap'])
+        else:
+            cap = min(inp['cap'], 700.0)
+            m = CWMMTrainer(max_concentration=cap).fit(y[None], initialization=init[None], iterations=inp['it'])
+            res.update(weight=np.asarray(m.weight), mean=np.asarray(m.complex_watson.mode), kappa=np.asarray(m.complex_watson.concentration),
+                       post=np.asarray(m.predict(y[None])), cap=cap)
+        return res
+
+    def ensures(sp, inp, out):
+        for key in ('weight', 'mean', 'kappa', 'post'):
+            if key in out:
+                yield '%s-finite[%s,cap=%g]' % (key, out['which'], out['cap']), bool(np.all(np.isfinite(out[key])))
+        if np.all(np.isfinite(out['kappa'])):
+            yield 'concentration-within-the-cap', bool(np.all(out['kappa'] >= 0) and np.all(out['kappa'] <= out['cap'] * (1 + 1e-12)))
+        if np.all(np.isfinite(out['mean'])):
+            yield 'modes-unit-norm', bool(np.allclose(np.linalg.norm(out['mean'], axis=-1), 1.0, atol=1e-9))
+        if 'weight' in out and np.all(np.isfinite(out['weight'])):
+            yield 'weights-sum-to-one', bool(np.allclose(out['weight'].sum(-2), 1.0, atol=1e-9))
+        if out['which'] != 'vmf' and np.all(np.isfinite(out['post'])):
+            yield 'posterior-sums-to-one', bool(np.allclose(out['post'].sum(-2), 1.0, atol=1e-9))
+
+    return Instance('C09', DN + 'vmfmm:VMFMMTrainer.fit', 'bounded-concentration-caps-far-above-the-defaults', make, call, ensures, mode='bounded', bounded_n=80, frame=False,
+                    raises=(ValueError, np.linalg.LinAlgError))
+
+
 def degenerate_bounded_instance():
     """Fits on degenerate data: finite parameters inside their domain (bounded stand-in)."""
     from pb_bss.distribution import (CACGMMTrainer, CWMMTrainer, GMMTrainer, VMFMMTrainer, ComplexAngularCentralGaussianTrainer,
@@ -585,14 +634,14 @@ def degenerate_bounded_instance():
             m = GMMTrainer().fit(y, initialization=init, iterations=inp['it'], weight_constant_axis=wca, covariance_type=model[4:])
             res.update(weight=m.weight, cov=m.gaussian.covariance, mean=m.gaussian.mean, K=K, ctype=model[4:])
         elif model == 'vmfmm':
-            lo_, hi_ = [(1e-10, 500), (2.0, 50.0), (0.5, 5.0)][inp['seed'] % 3]
+            lo_, hi_ = [(1e-10, 500), (2.0, 50.0), (0.5, 5.0), (1e-10, 1e4), (100.0, 2e3)][inp['seed'] % 5]       # (the cap is the caller's choice, also far above the default)
             m = VMFMMTrainer().fit(y, initialization=init, iterations=inp['it'], weight_constant_axis=wca, min_concentration=lo_, max_concentration=hi_)
             res.update(weight=m.weight, mean=m.vmf.mean, kappa=m.vmf.concentration, K=K, vmf=True, clip=(lo_, hi_))
         elif model == 'cacg':
             m = ComplexAngularCentralGaussianTrainer().fit(y, iterations=inp['it'])
             res.update(lam=m.covariance_eigenvalues, V=m.covariance_eigenvectors)
         elif model == 'vmf':
-            lo_, hi_ = [(1e-10, 500), (2.0, 50.0), (0.5, 5.0)][inp['seed'] % 3]
+            lo_, hi_ = [(1e-10, 500), (2.0, 50.0), (0.5, 5.0), (1e-10, 1e4), (100.0, 2e3)][inp['seed'] % 5]
             m = VonMisesFisherTrainer().fit(y, min_concentration=lo_, max_concentration=hi_)
             res.update(mean=m.mean, kappa=m.concentration, vmf=True, clip=(lo_, hi_))
         else:
@@ -715,4 +764,4 @@ _instances_before_simplex = instances
 
 def instances(tier):       # noqa: F811
     from .common import simplex_lemma_instances
-    return _instances_before_simplex(tier) + [hard_start_tying_bounded_instance()] + simplex_lemma_instances('C09')
+    return _instances_before_simplex(tier) + [hard_start_tying_bounded_instance(), high_caps_bounded_instance()] + simplex_lemma_instances('C09')
